@@ -606,7 +606,8 @@ class Gen:
         # emit body line by line with origin tracking
         self._emit_body(body, s.path, body_line, key)
         self.functions.append(dict(fn=key, file=s.path, line=sig_line, first=fn_first, last=self.cur_line() - 1,
-                                   contracted=bool(ctr and (ctr.requires or ctr.ensures))))
+                                   contracted=bool(ctr and (ctr.requires or ctr.ensures or ctr.proofs or ctr.ledgers or ctr.loops)),
+                                   contract_kinds=([k_ for k_ in ("requires", "ensures", "loops", "proofs", "ledgers") if ctr and getattr(ctr, k_)])))
 
     def _insert_proofs(self, key, ctr, body, path, body_line):
         """Resolve every @proof anchor: exact text, else unique fuzzy line match (the anchored
